@@ -10,6 +10,7 @@ package main
 import (
 	"flag"
 	"fmt"
+	"regexp"
 	"sort"
 	"strings"
 
@@ -28,15 +29,15 @@ type KeyEnt struct {
 }
 
 type AxEnt struct {
-	Axis                string
-	Code                int
-	Type                string
-	CC, CCNeg           *int
-	Note, NoteNeg       *int
-	Off, OffNeg         *int
-	Action, ActionNeg   *string
-	Flip, DZC           *bool
-	extra               string // raw text appended inside the inline table (invalidations)
+	Axis              string
+	Code              int
+	Type              string
+	CC, CCNeg         *int
+	Note, NoteNeg     *int
+	Off, OffNeg       *int
+	Action, ActionNeg *string
+	Flip, DZC         *bool
+	extra             string // raw text appended inside the inline table (invalidations)
 }
 
 type KeySub struct {
@@ -72,10 +73,10 @@ type Desc struct {
 	topExtra, defaultsExtra       string
 }
 
-func ip(v int) *int          { return &v }
-func sp(v string) *string    { return &v }
-func bp(v bool) *bool        { return &v }
-func fp(v float64) *float64  { return &v }
+func ip(v int) *int         { return &v }
+func sp(v string) *string   { return &v }
+func bp(v bool) *bool       { return &v }
+func fp(v float64) *float64 { return &v }
 func ff(v float64) string {
 	s := fmt.Sprintf("%v", v)
 	if !strings.ContainsAny(s, ".e") {
@@ -463,6 +464,48 @@ func checkInvalid(d *Desc, tag string) {
 		return
 	}
 	res.Distinct("rejected:" + strings.SplitN(tag, "@", 2)[0])
+}
+
+var scalarLine = regexp.MustCompile(`^(\s*[A-Za-z_0-9]+\s*=\s*)(-?[0-9]+|0x[0-9a-fA-F]+|"[^"]*")\s*$`)
+
+// checkIllTyped: every scalar of the rendered file is replaced, one at a time, by a value of another TOML type (a date or
+// time where a number or string is expected, a number where a string is expected, ...): the file no longer states a value
+// of the field's type and must be rejected - never accepted with the field silently left at zero.
+func checkIllTyped(d *Desc, tag string) {
+	lines := strings.Split(d.TOML(), "\n")
+	for i, l := range lines {
+		m := scalarLine.FindStringSubmatch(l)
+		if m == nil {
+			continue
+		}
+		aliens := []string{"1979-05-27", "07:32:00", "1979-05-27T07:32:00Z", "true", "[1]", "{ a = 1 }"}
+		if strings.HasPrefix(m[2], `"`) {
+			aliens = append(aliens, "7", "1.5")
+		} else {
+			aliens = append(aliens, `"7"`, "1.5")
+		}
+		for _, a := range aliens {
+			counter++
+			if counter%nshards != shard {
+				continue
+			}
+			mut := append(append(append([]string{}, lines[:i]...), m[1]+a), lines[i+1:]...)
+			text := strings.Join(mut, "\n")
+			res.Add("evaluations", 1)
+			res.Add("invalidations", 1)
+			what := fmt.Sprintf("line %q replaced by %q", strings.TrimSpace(l), strings.TrimSpace(m[1]+a))
+			_, err := safeParse(text)
+			switch {
+			case err != nil && strings.HasPrefix(err.Error(), "PANIC:"):
+				res.Violate("invalid-config-panics", "ill-typed value", fmt.Sprintf("%s (%s) made ParseData panic: %v", what, tag, err), map[string]interface{}{"invalidation": what, "toml": text})
+				return
+			case err == nil:
+				res.Violate("invalid-config-accepted", "ill-typed value", fmt.Sprintf("a configuration with %s (%s) was accepted", what, tag), map[string]interface{}{"invalidation": what, "toml": text})
+				return
+			}
+			res.Distinct("rejected:ill-typed")
+		}
+	}
 }
 
 func safeParse(text string) (cfg config.Config, err error) {
